@@ -192,6 +192,12 @@ def main(argv):
                [{"op": "touch", "k": "a", "e": 100, "nr": None}, s_a, {"op": "touch", "k": "a", "e": 100, "nr": None}, {"op": "ADVANCE", "dt": 50}, {"op": "get", "k": "a"}],
                [{"op": "set", "k": "a", "v": b"1", "e": 10, "nr": False}, {"op": "touch", "k": "a", "e": 100, "nr": False}, {"op": "ADVANCE", "dt": 50}, {"op": "get", "k": "a"},
                 {"op": "touch", "k": "a", "e": 100, "nr": True}, {"op": "ADVANCE", "dt": 60}, {"op": "get", "k": "a"}]]
+    # keys at the length limit: 250 bytes WITH the prefix is the longest legal key; what is refused is refused before anything is sent, so the item
+    # is neither stored nor reported as stored
+    for L_ in (246, 247, 248, 250, 251):
+        lk = "k" * L_
+        unnamed.append([{"op": "set", "k": lk, "v": b"1", "nr": None}, {"op": "get", "k": lk}, {"op": "add", "k": lk, "v": b"2", "nr": False}, {"op": "delete", "k": lk, "nr": None},
+                        {"op": "get", "k": lk}, {"op": "set", "k": "a", "v": b"after", "nr": False}, {"op": "get", "k": "a"}])
     j = 0
     for kind in ("Client", "Pooled", "Hash1", "HashPooled", "Hash2"):
         for h in unnamed:
